@@ -12,6 +12,7 @@ import (
 	"fmt"
 	"go/ast"
 	"go/constant"
+	"go/token"
 	"go/types"
 	"os"
 	"regexp"
@@ -1009,5 +1010,98 @@ func ruleREF6(p *Program) *RuleResult {
 		r.ok("reference|pure", fmt.Sprintf("the %d reference/identity/canonical functions use package-level state only by loading error sentinels, regexps and scalars", r.Analysed["functions"]), "internal/element/reference", "operand inventory", true)
 	}
 	r.floor("functions", 40)
+	return r
+}
+
+// ---------- REF7: identity comparison is component-wise equality ----------
+
+// (*Identity).Equal is evaluated on all pairs of a pool of identities (type x id
+// x version incl. the empty version): it is true exactly when the three
+// components are equal, which makes it reflexive, symmetric and transitive and
+// consistent with the string rendering.
+func ruleREF7(p *Program) *RuleResult {
+	r := newResult("REF7")
+	fn, err := p.Method("internal/resource", "Identity", "Equal")
+	if err != nil {
+		return r.anchorFail(err)
+	}
+	idT := typeByName(p, mod+"/internal/resource", "Identity")
+	iT, iID, iVer := structFieldIndex(idT, "typeName"), structFieldIndex(idT, "id"), structFieldIndex(idT, "version")
+	if iT < 0 || iID < 0 || iVer < 0 {
+		return r.anchorFail(fmt.Errorf("anchor: Identity fields changed"))
+	}
+	// the pointer-identity shortcut `i == other`
+	var ptrEq []*ssa.BinOp
+	for _, b := range fn.Blocks {
+		for _, ins := range b.Instrs {
+			if bo, ok := ins.(*ssa.BinOp); ok && (bo.Op == token.EQL || bo.Op == token.NEQ) {
+				_, p1 := bo.X.(*ssa.Parameter)
+				_, p2 := bo.Y.(*ssa.Parameter)
+				if p1 && p2 {
+					ptrEq = append(ptrEq, bo)
+				}
+			}
+		}
+	}
+	type ident struct{ t, id, v string }
+	var pool []ident
+	for _, t := range []string{"Patient", "Observation"} {
+		for _, id := range []string{"1", "2"} {
+			for _, v := range []string{"", "v1", "v2"} {
+				pool = append(pool, ident{t, id, v})
+			}
+		}
+	}
+	mk := func(x ident) aval {
+		e := make([]aval, 3)
+		e[iT], e[iID], e[iVer] = cStr(x.t), cStr(x.id), cStr(x.v)
+		return ptrTo(aval{k: kStruct, elems: e})
+	}
+	bad := 0
+	first := ""
+	for _, a := range pool {
+		for _, b := range pool {
+			r.count("pairs", 1)
+			an := newAnalyzer()
+			for _, bo := range ptrEq {
+				an.pin[bo] = cBool(bo.Op == token.NEQ) // two distinct objects
+			}
+			j := an.analyze(fn, []aval{mk(a), mk(b)}).joinedReturn()
+			want := a == b
+			if j.k != kConst || j.c.Kind() != constant.Bool || constant.BoolVal(j.c) != want {
+				bad++
+				if first == "" {
+					first = fmt.Sprintf("Equal(%s/%s/%q, %s/%s/%q) = %s, want %v", a.t, a.id, a.v, b.t, b.id, b.v, j.String(), want)
+				}
+			}
+		}
+	}
+	if bad == 0 {
+		r.ok("resource.Identity.Equal|pool", fmt.Sprintf("Identity.Equal is component-wise equality on all %d pairs of the pool (an equivalence relation consistent with the rendering)", len(pool)*len(pool)), p.pos(fn.Pos()), "constant propagation with the pointer-identity shortcut pinned to 'distinct objects'", true)
+	} else {
+		r.bad("resource.Identity.Equal|pool", fmt.Sprintf("%d of %d pairs differ from component-wise equality; first: %s", bad, len(pool)*len(pool), first), p.pos(fn.Pos()),
+			"reference comparison built on it is no longer an equivalence (e.g. an unversioned identity equal to two different versions) and equal identities render differently")
+	}
+	// nil operands are unequal to any identity; the same object equals itself
+	for _, c := range []struct {
+		name string
+		a, b aval
+		ptr  bool
+		want bool
+	}{{"nil receiver", aval{k: kNil}, mk(pool[0]), false, false}, {"nil argument", mk(pool[0]), aval{k: kNil}, false, false}, {"same object", mk(pool[1]), mk(pool[1]), true, true}} {
+		r.count("pairs", 1)
+		an := newAnalyzer()
+		for _, bo := range ptrEq {
+			an.pin[bo] = cBool((bo.Op == token.EQL) == c.ptr)
+		}
+		j := an.analyze(fn, []aval{c.a, c.b}).joinedReturn()
+		key := "resource.Identity.Equal|" + c.name
+		if j.k == kConst && j.c.Kind() == constant.Bool && constant.BoolVal(j.c) == c.want {
+			r.ok(key, fmt.Sprintf("Identity.Equal with a %s is %v", c.name, c.want), p.pos(fn.Pos()), "constant propagation", true)
+		} else {
+			r.bad(key, fmt.Sprintf("Identity.Equal with a %s is %s, want %v", c.name, j.String(), c.want), p.pos(fn.Pos()), "comparison must be total and reflexive")
+		}
+	}
+	r.floor("pairs", 100)
 	return r
 }
